@@ -160,9 +160,9 @@ func (p *Prog) Describe(v ssa.Value) string {
 			return "call:" + p.CalleeName(c)
 		}
 	case *ssa.Parameter:
-		return "param:" + x.Name()
+		return "param:" + LogicalName(x)
 	case *ssa.FreeVar:
-		return "free:" + x.Name()
+		return "free:" + LogicalName(x)
 	case *ssa.Const:
 		return "const:" + x.String()
 	case *ssa.Global:
